@@ -1442,6 +1442,10 @@ func (ex *Exec) convert(fr *Frame, st *State, x *ssa.Convert) Val {
 	case tb != nil && tb.Info()&types.IsString != 0 && fromInt:
 		ex.havoc("string(rune)")
 		return ex.freshVal(to, "runestr", st)
+	case fb != nil && fb.Info()&types.IsFloat != 0 && toInt:
+		// float -> integer: uninterpreted truncation (f2i), wrapped to the target range
+		ex.models["float64->integer conversion as uninterpreted f2i (only facts stated in the trusted prelude are known)"] = true
+		return Val{T: ex.wrap(fmt.Sprintf("(f2i %s)", v.T), to)}
 	case fb != nil && tb != nil && (fb.Info()&types.IsFloat != 0 || tb.Info()&types.IsFloat != 0):
 		ex.havoc("floating-point conversion")
 		return ex.freshVal(to, "floatconv", st)
